@@ -62,6 +62,24 @@ class Check(PropCheck):
                 t2 = nni_neighbour(t1, rng); gen.assign_lengths(t2, rng, mode)
             else:
                 t2 = gen.rand_tree(rng, n, mode, p_multi=0.2, internal_names=0.0, names=names)
+            if r >= 0.75 and rng.random() < 0.5:
+                # t1 := t2 with some internal branches contracted (possibly all: a star tree)
+                t1 = t2.copy()
+                pc = rng.choice([0.3, 0.6, 1.0])
+                def contract(nd):
+                    newc = []
+                    for c in nd.children:
+                        contract(c)
+                        if c.children and rng.random() < pc:
+                            newc += c.children
+                        else:
+                            newc.append(c)
+                    nd.children = newc
+                contract(t1)
+                gen.assign_lengths(t1, rng, mode)
+                if rng.random() < 0.5:
+                    t1, t2 = t2, t1
+                kind = 'pair'
             if rng.random() < 0.3 and kind != 'reorder':
                 t2 = redraw_root(t2); gen.assign_lengths(t2, rng, mode)
             meta = {'kind': kind, 'tol': None if mode == 'exact' else 1e-9}
@@ -72,11 +90,12 @@ class Check(PropCheck):
                     rng.choice(inner).length = None
                     meta['kind'] = 'missing'
             q0 = ['wrf 1', 'kf 1', 'cmp_topo 1', 'cmp_branch 1 0', 'cmp_branch 1 1']
-            q1 = ['wrf 0', 'kf 0']
+            q1 = ['wrf 0', 'kf 0', 'cmp_topo 0']
             ops = pair_ops(t1, t2, q0, q1)
             if meta['kind'] != 'missing' and rng.random() < 0.4:
                 f = 2.0 ** rng.randint(-3, 3)
-                ops += ['sel 0', 'rescale ' + vf.enc_len(f), 'reset_cache', 'sel 1', 'rescale ' + vf.enc_len(f), 'reset_cache', 'sel 0', 'wrf 1', 'kf 1']
+                rc = ['reset_cache'] if rng.random() < 0.3 else []
+                ops += ['sel 0', 'rescale ' + vf.enc_len(f)] + rc + ['sel 1', 'rescale ' + vf.enc_len(f)] + rc + ['sel 0', 'wrf 1', 'kf 1', 'cmp_topo 1']
                 meta['factor'] = f
             cases.append(Case('c%d' % j, ops, meta))
         return cases
@@ -152,11 +171,21 @@ class Check(PropCheck):
             v = vals.get(('wrf 1', 0, False))
             if v and v[1][0] == 'ok' and vf.fl(v[1][1]) != 0.0:
                 bad.append((v[0], 'weighted RF against a reordering of itself is not zero'))
-        ct = vals.get(('cmp_topo 1', 0, False))
-        if ct and ct[1][0] == 'ok':
-            x = vf.fl(ct[1][3])
-            if (Fraction(x) != wrf) if not tol else abs(x - float(wrf)) > 1e-9 * max(float(wrf), 1e-300):
-                bad.append((ct[0], 'combined report weighted RF %r differs from the definition %r' % (x, float(wrf))))
+        for key in (('cmp_topo 1', 0, False), ('cmp_topo 0', 1, False)):
+            ct = vals.get(key)
+            if ct and ct[1][0] == 'ok':
+                x = vf.fl(ct[1][3])
+                if (Fraction(x) != wrf) if not tol else abs(x - float(wrf)) > 1e-9 * max(float(wrf), 1e-300):
+                    bad.append((ct[0], 'combined report weighted RF %r differs from the definition %r' % (x, float(wrf))))
+                y = vf.fl(ct[1][4])
+                if abs(y - math.sqrt(float(kf2))) > 1e-9 * max(math.sqrt(float(kf2)), 1e-300, float(wrf)):
+                    bad.append((ct[0], 'combined report branch score %r differs from the definition %r' % (y, math.sqrt(float(kf2)))))
+        if f is not None:
+            ct = vals.get(('cmp_topo 1', 0, True))
+            if ct and ct[1][0] == 'ok':
+                x = vf.fl(ct[1][3]); e = float(wrf * Fraction(abs(f)))
+                if abs(x - e) > 1e-9 * max(e, 1e-300):
+                    bad.append((ct[0], 'combined report after rescaling: weighted RF %r, expected %r' % (x, e)))
         cb = vals.get(('cmp_branch 1 0', 0, False))
         if cb and cb[1][0] == 'ok' and not tol:
             segs = vf.split_sets(cb[1][1:])
